@@ -28,6 +28,7 @@ import Batchie.Lemmas.OrchRun
 import Batchie.Lemmas.OrchGenerated
 import Batchie.Lemmas.OrchFake
 import Batchie.Lemmas.OrchInputs
+import Batchie.Lemmas.OrchProgress
 
 namespace Batchie.Props.C19
 open Batchie.Orchestrator
@@ -326,6 +327,111 @@ theorem C19_resume_driver (B : Nat) (hB : 1 ≤ B) (fk : Fake) (sched : List (Op
       (runSched ⟨.retrospective, B, fakePubs fk⟩ sched Tree.empty []).tree
       (runSched ⟨.retrospective, B, fakePubs fk⟩ sched Tree.empty []).events :=
   C19_resume ⟨.retrospective, B, fakePubs fk⟩ rfl hB (fakePubs_markerLast _ B fk (Or.inl rfl)) sched
+
+/-! ## a concrete pipeline: the retrospective simulation reveals every plate exactly once and stops
+
+`simCfg B sc` (`Model/OrchSim.lean`) instantiates the abstract `pubs`: a screen file holds the bitmask of its unobserved
+plates, a step selects a plate with an ARBITRARY selection function `sc.sel` (of the unobserved mask and the excludes;
+`SelOK`: it returns an unobserved plate whenever there is one), clears that bit in the advanced screen and records the
+number of unobserved plates left in `screen_metadata.json`. -/
+
+/-- **For every batch size ≥ 1, every number of plates, every selection function and EVERY interruption schedule**
+    (`r` = the execution of `sched`, any number of interruptions at any atomic actions, reruns after removing what the
+    script names):
+    (a) the completed steps reveal pairwise distinct plates, each unobserved at the start;
+    (b) `n_unobserved_plates` after the `i`-th completed step is `(unobserved at the start) - (i+1)`: one less per step;
+    (c) if `main`'s loop has ended by itself (`run_next_retrospective_step` returned False) then exactly as many steps
+        have completed as there were unobserved plates -- none is left, and no step ran after the last plate;
+    (d) every schedule that goes on to let each call finish (`n ≥ 2·plates + 2` uninterrupted calls appended: one per
+        remaining step, one to name a partial directory, one to notice the end) DOES end by itself, with every plate
+        revealed exactly once. -/
+theorem C19_simulation_terminates_all_revealed (B : Nat) (hB : 1 ≤ B) (sc : SimCfg) (hsel : SelOK sc)
+    (h0 : 0 < cntBits sc.N sc.M0) (sched : List (Option Nat)) :
+    ((completedOf (runSched (simCfg B sc) sched Tree.empty []).events).map (selOf sc)).Nodup ∧
+    (∀ l ∈ completedOf (runSched (simCfg B sc) sched Tree.empty []).events,
+      sc.M0.testBit (selOf sc l) = true ∧ selOf sc l < sc.N ∧
+      findKind .selected ((simCfg B sc).pubs l) = some ⟨.selected, selOf sc l⟩) ∧
+    (∀ i l, (completedOf (runSched (simCfg B sc) sched Tree.empty []).events)[i]? = some l →
+      metaOf ⟨l.plate, some ((simCfg B sc).pubs l)⟩ = some (cntBits sc.N sc.M0 - (i + 1))) ∧
+    (completedOf (runSched (simCfg B sc) sched Tree.empty []).events).length ≤ cntBits sc.N sc.M0 ∧
+    ((runSched (simCfg B sc) sched Tree.empty []).halted = true →
+      (completedOf (runSched (simCfg B sc) sched Tree.empty []).events).length = cntBits sc.N sc.M0) ∧
+    (∀ n, 2 * cntBits sc.N sc.M0 + 2 ≤ n →
+      (runSched (simCfg B sc) (sched ++ List.replicate n none) Tree.empty []).halted = true ∧
+      (completedOf (runSched (simCfg B sc) (sched ++ List.replicate n none) Tree.empty []).events).length =
+        cntBits sc.N sc.M0) := by
+  have hml := sim_markerLast sc B
+  have hB' : 1 ≤ (simCfg B sc).B := hB
+  -- the facts (a)-(c) for an arbitrary schedule
+  have facts : ∀ s : List (Option Nat),
+      ∃ p jk, GI (simCfg B sc) (runSched (simCfg B sc) s Tree.empty []).tree (runSched (simCfg B sc) s Tree.empty []).events p jk ∧
+        SimInv sc p ∧
+        ((runSched (simCfg B sc) s Tree.empty []).halted = true → p.flat.length = cntBits sc.N sc.M0) := by
+    intro s
+    obtain ⟨p, jk, hg, hfin⟩ := runSched_inv_halt (simCfg B sc) hml hB' rfl s (GI.init _)
+    have hinv := simInv sc B hB hsel h0 hg.crun
+    refine ⟨p, jk, hg, hinv, ?_⟩
+    intro hh
+    have hf := hfin hh
+    have hne : p.flat ≠ [] := by
+      intro e
+      have hn := (nextOfProg_of_CRun (simCfg B sc) hg.crun).2 e
+      unfold isFinished at hf
+      rw [hn] at hf
+      exact absurd hf.2 (by simp)
+    have := (sim_finished_iff sc B hg.crun hne).mp hf
+    have hc := hinv.count
+    omega
+  obtain ⟨p, jk, hg, hinv, hhalt⟩ := facts sched
+  rw [hg.comp]
+  refine ⟨hinv.nodup, ?_, ?_, ?_, hhalt, ?_⟩
+  · intro l hl
+    obtain ⟨_, h2, h3⟩ := hinv.revealed l hl
+    refine ⟨h2, h3, ?_⟩
+    simp only [simCfg]
+    cases hw : l.wf <;> simp [simPubs, simCore, hw, findKind]
+  · intro i l hi
+    have := hinv.markers i l hi
+    simp only [simCfg]
+    rw [sim_metaOf] at this ⊢
+    exact this
+  · have := hinv.count; omega
+  · intro n hn
+    obtain ⟨p', jk', hg', _, hhalt'⟩ := facts (sched ++ List.replicate n none)
+    have hhalted : (runSched (simCfg B sc) (sched ++ List.replicate n none) Tree.empty []).halted = true := by
+      by_cases hh : (runSched (simCfg B sc) sched Tree.empty []).halted = true
+      · rw [runSched_append_halted _ _ _ _ _ hh]; exact hh
+      · rw [runSched_append _ _ _ _ _ (by simpa using hh)]
+        apply sim_progress sc B hB hsel h0 n hg
+        have hc := hinv.count
+        have : junkW jk ≤ 1 := by cases jk <;> simp [junkW]
+        omega
+    refine ⟨hhalted, ?_⟩
+    rw [hg'.comp]
+    exact hhalt' hhalted
+
+/-- the hypotheses are satisfiable: five plates, "lowest unobserved plate id" as the selection function -/
+def demoSim : SimCfg := ⟨5, 0b10111, fun m _ => (List.range 5).find? (fun q => m.testBit q) |>.getD 0⟩
+
+example : SelOK demoSim ∧ 0 < cntBits demoSim.N demoSim.M0 := by
+  refine ⟨?_, by decide⟩
+  rintro m ex ⟨q, hq, hb⟩
+  simp only [demoSim] at hq ⊢
+  cases h : (List.range 5).find? (fun q => m.testBit q) with
+  | none =>
+    rw [List.find?_eq_none] at h
+    exact absurd hb (by simpa using h q (List.mem_range.mpr hq))
+  | some s =>
+    have h1 := List.find?_some h
+    have h2 := List.mem_of_find?_eq_some h
+    simp only [Option.getD_some]
+    exact ⟨List.mem_range.mp h2, h1⟩
+
+/-- ... and the instance runs: batch size 2, an interruption after 9 atomic actions, then uninterrupted calls -/
+example :
+    let r := runSched (simCfg 2 demoSim) [some 9, none, none, none, none, none, none, none] Tree.empty []
+    r.halted = true ∧ (completedOf r.events).map (selOf demoSim) = [0, 1, 2, 4] := by
+  decide
 
 /-! ## prospective mode: the marker is published first -/
 
